@@ -217,6 +217,19 @@ def run_posterior(c, rec):
             require(close(parts, got, 1e-10), "posterior.logd != likelihood.logd + prior.logd")
         else:
             require(close(float(np.asarray(P.logpdf(xv)).reshape(-1)[0]), got, 1e-12), "MultipleLikelihoodPosterior.logpdf != logd")
+    # the caller's buffer re-used: the same array object, overwritten in place between two evaluations (as optimisers and
+    # finite-difference loops do), must give the value of its current content
+    x2 = A(c["x2"])
+    vals2 = dict(spec["values"])
+    vals2[lat] = list(x2)
+    want2 = graphs.ref_joint_logd(spec, vals2)
+    if np.isfinite(want2):
+        buf = np.array(x, dtype=float)
+        first = float(np.asarray(P.logd(buf)).reshape(-1)[0])
+        buf[:] = x2
+        second = float(np.asarray(P.logd(buf)).reshape(-1)[0])
+        require(close(second, want2, 1e-9), f"{expected}.logd evaluated on a buffer that was overwritten in place returns the value of "
+                "the buffer's earlier content (or a mixture)", got=second, want=want2, value_at_earlier_content=first)
     refused, _ = refuses(lambda: P.logd())
     require(refused, "posterior.logd() without the variable returned a number")
     refused, _ = refuses(lambda: P.logd(x, **{lat: x}))
